@@ -132,6 +132,39 @@ def run(tier):
             text = "print(%s%s);\nprint(\"after\");\n" % (d, sfx)
             plist.append({"name": "lex/%s%s" % (d, sfx), "kind": "c", "steps": [("snip", text)], "mods": []})
 
+    # ---- (e) numbers formatted right after other text-producing operations, successful or failed half-way (a conversion
+    # that stopped at a bad element, an interpolation whose later part failed, a rejected argument), in the same run, in a
+    # later run on the same interpreter, and after reset(): the text of a number depends on the number alone
+    events = ["String.from_code_points([49, 46, -1])", "String.from_code_points([45, 49, 1114112])", "String.from_code_points([55, 55296])",
+              "String.from_utf8([49, 46, 255])", "String.from_utf8([45, 226, 130])", "String.from_ascii([51, 46, 300])", "String.from_ascii([52, nil])",
+              "\"${1}.${nil + 1}\"", "\"7${[][0]}\"", "\"1.\" + nil", "\"-\".replace(\"-\", 5)", "\"1e\".to_num()", "\"9\".find(\"\", 0)",
+              "String.from(nil + 1)", "[1, 2].iter().map(|q| \"${q}.${nil.y}\").collect()", "\"3.\"[5]", "\"0.\".split(7)",
+              "String.from_code_points([49, 50])", "\"12\" + \".5\"", "\"${12}.\"", "String.from(0.5)", "\"1.5\".to_num()", "String.from_utf8([45, 48])"]
+    for i in range(60 if quick else 2000 * common.TS):
+        r = rng.fork("dirty/%d" % i)
+        chunk = [r.choice(doubles[:400]) if r.chance(50) else from_bits(r.next()) for _ in range(8)]
+        blocks = []
+        for k in range(len(chunk)):
+            g = "g%d" % k
+            ev = r.choice(events)
+            blocks.append("try { var tmp = %s; print(type(tmp)); } catch e { print(type(e)); }\n"
+                          "print(\"${%s}\"); print(%s); print(String.from(%s)); print(\"<${%s}|${%s}>\"); print(String.from(%s).to_num() == %s || %s != %s);\n"
+                          % (ev, g, g, g, g, g, g, g, g, g))
+        shape = r.below(3)
+        if shape == 0:
+            steps = [("snip", "".join(blocks))]
+        elif shape == 1:
+            # the failing operation ends its run uncaught; the numbers are formatted by the next run
+            steps = []
+            for k, b in enumerate(blocks):
+                steps.append(("snip", "var tmp%d = %s;\nprint(\"survived\");\n" % (k, r.choice(events))))
+                steps.append(("snip", b))
+        else:
+            steps = [("snip", "".join(blocks[:4])), ("snip", "var t = %s;\n" % r.choice(events[:17])), ("snip", "".join(blocks[4:]))]
+        plist.append({"name": "dirty/%d" % i, "kind": "e", "steps": steps, "mods": [],
+                      "globals": [("g%d" % k, bits(v)) for k, v in enumerate(chunk)],
+                      "globals_f": [("g%d" % k, v) for k, v in enumerate(chunk)], "budget": 2000000})
+
     def seen(p, m, res):
         v = m["view"][0]
         st = res["steps"][0]
